@@ -563,3 +563,77 @@ def replace_slot(cls_short, slot):
             if qn in before and qn in sql:
                 return f"{label}.replace_table({old._table_name}, zz_new) still mentions {qn}: {sql!r}"
     return None
+
+
+def _lex_literal(sql, q="'", mysql=False):
+    """reference lexer: one quoted literal spanning all of sql -> decoded text, else None"""
+    if len(sql) < 2 or sql[0] != q:
+        return None
+    out, i = [], 1
+    while i < len(sql):
+        c = sql[i]
+        if mysql and c == "\\" and i + 1 < len(sql):
+            out.append(sql[i + 1])
+            i += 2
+            continue
+        if c == q:
+            if i + 1 < len(sql) and sql[i + 1] == q:
+                out.append(q)
+                i += 2
+                continue
+            return "".join(out) if i == len(sql) - 1 else None
+        out.append(c)
+        i += 1
+    return None
+
+
+def literal_roundtrip(cls_short, kind):
+    """C05: adversarial values of a kind, in several positions, lex as one literal that decodes to the value"""
+    import datetime
+    import decimal
+    import json
+    import uuid
+    from . import Table, ValueWrapper
+    t = Table("t")
+    strs = ["it's", "a\\", "a\\'b", "x'; DROP TABLE t; --", "%s ? $1", "multi\nline", "nul\x00", "ünï", "''", "\\\\"]
+    for qc in QUERY_CLASSES:
+        mysql = qc.SQL_CONTEXT.dialect.name == "MYSQL"
+        for s_ in strs:
+            for label, build in (("where", lambda v: qc.from_(t).select("*").where(t.a == v)),
+                                 ("insert", lambda v: qc.into(t).insert(v)),
+                                 ("set", lambda v: qc.update(t).set(t.a, v)),
+                                 ("select", lambda v: qc.from_(t).select(v))):
+                v = s_ if kind == "str" else ({"k": s_} if kind == "dict" else ([s_] if kind == "list" else None))
+                if v is None:
+                    continue
+                sql = str(build(v))
+                want = v if kind == "str" else json.dumps(v)
+                # locate the literal: it starts at the first quote of the value position
+                i = sql.find("'")
+                tail = sql[i:]
+                j = len(tail)
+                ok = False
+                while j > 1:
+                    dec = _lex_literal(tail[:j], "'", mysql)
+                    if dec is not None:
+                        ok = dec == want
+                        break
+                    j -= 1
+                if not ok:
+                    return f"{qc.__name__} {label} position, value {v!r}: rendered {sql!r}; the literal does not decode to the value"
+    return None
+
+
+def json_term():
+    from . import JSON
+    v = {"a": 'it\'s "q"'}
+    sql = str(JSON(v))
+    dec = _lex_literal(sql, "'", False)
+    import json
+    try:
+        ok = dec is not None and json.loads(dec) == v
+    except Exception:
+        ok = False
+    if not ok:
+        return f"JSON({v!r}) renders {sql!r}: not one literal that decodes to the value"
+    return None
